@@ -142,7 +142,7 @@ def run(prog, chk):
         pk = p1 if res else 1 - p1
         got = info['collapse'][(res, res)].get(res, KP.A[res])
         c = sp.simplify(got / KP.A[res])
-        ok = sp.simplify(c ** 2 * pk - 1) == 0 and info['acc'].get((1,)) == sp.Abs(KP.A[1]) ** 2
+        ok = sp.simplify(c ** 2 * pk - 1) == 0 and sp.simplify(info['acc'].get((1,), 0) + info['acc'].get((0,), 0) - sp.Abs(KP.A[1]) ** 2) == 0
         chk.ob('R03.2', m, info['loop2_ln'], ok, 'measure outcome %d: kept amplitudes scaled by %s; (scale)²·p_kept = 1' % (res, c), key='norm:measure:%d' % res)
     # reset is covered through C04's transformer; recompute the scale here
     from . import C04 as _c04
@@ -225,7 +225,7 @@ def run(prog, chk):
             else:
                 sites.append((gf, call))
         for gf, call in sites:
-            loops = [s_ for s_ in enclosing_stmts(gf.body, call) if s_['k'] in ('for', 'forrange', 'while', 'do')]
+            loops = [s_ for s_ in enclosing_stmts(gf.body, call, into_lambdas=(gf.kind == 'lambda')) if s_['k'] in ('for', 'forrange', 'while', 'do')]
             detail = []
             ok = bool(loops)
             if loops:
